@@ -37,7 +37,7 @@ CfgOf(e) ==
   [place |-> [c \in Checks |-> ToSet(e.place[c])],
    verd  |-> [c \in Checks |-> [s \in Stages |-> e.verd[c][s]]],
    only1 |-> ToSet(e.only1), route |-> e.route, path |-> e.path, dmarc |-> e.dmarc,
-   kind |-> e.kind, mod |-> e.mod, mfail |-> ToSet(e.mfail), nn |-> 0, cells |-> {}, fixed |-> TRUE]
+   kind |-> e.kind, mod |-> e.mod, mfail |-> ToSet(e.mfail), from |-> "addr", nn |-> 0, cells |-> {}, fixed |-> TRUE]
 
 TInit ==
   /\ InitWith(RemoteCfg)
